@@ -324,6 +324,7 @@ pub struct Peer<C: Config> {
     pub mon: PeerMon,
     pub rx_seen: Rc<RefCell<Vec<Addr>>>,
     pub qreplies: Rc<RefCell<HashMap<Addr, u32>>>,
+    pub sync_nonces: Rc<RefCell<HashMap<Addr, Vec<u32>>>>,
     pub delay_ref: HashMap<usize, DelayRef>,
     pub started: u64,
 }
@@ -383,7 +384,8 @@ where
     for (id, spec) in &sc.peers {
         let rx_seen = Rc::new(RefCell::new(Vec::new()));
         let qreplies = Rc::new(RefCell::new(HashMap::new()));
-        let sock = SimSocket { me: *id, net: net.clone(), last_rx_from: rx_seen.clone(), qreplies: qreplies.clone() };
+        let sync_nonces = Rc::new(RefCell::new(HashMap::new()));
+        let sock = SimSocket { me: *id, net: net.clone(), last_rx_from: rx_seen.clone(), qreplies: qreplies.clone(), sync_nonces: sync_nonces.clone() };
         let mut delay_ref = HashMap::new();
         let built = guarded(|| -> Result<Sess<C>, GgrsError> {
             match spec {
@@ -440,7 +442,7 @@ where
                 delay_ref.insert(*h, DelayRef { delay: *delay as i32, last_user: -1, ..Default::default() });
             }
         }
-        peers.push(Peer { id: *id, spec: spec.clone(), sess, mon: PeerMon::new(cfg.players), rx_seen, qreplies, delay_ref, started: 0 });
+        peers.push(Peer { id: *id, spec: spec.clone(), sess, mon: PeerMon::new(cfg.players), rx_seen, qreplies, sync_nonces, delay_ref, started: 0 });
     }
     // initial SyncRequests were queued at construction; the first poll sends them.
     let truth: Rc<RefCell<HashMap<usize, Vec<u32>>>> = Rc::new(RefCell::new(HashMap::new()));
@@ -974,6 +976,13 @@ where
                             let stt = p.mon.sync_counts.entry(a).or_insert(0);
                             if let Err(m) = grammar_step(stt, &name) {
                                 out.hit("C12", "event-grammar", &scen, &format!("peer {id} address {a}: {m}; stream so far {:?}", &lst[lst.len().saturating_sub(8)..]));
+                            }
+                            // the handshake is five matched round trips: five replies with different nonces (C12)
+                            if name == "Synchronized" {
+                                let n = p.sync_nonces.borrow().get(&a).map_or(0, Vec::len);
+                                if n < 5 {
+                                    out.hit("C12", "synchronized-early", &scen, &format!("peer {id} address {a}: Synchronized after {n} distinct sync replies were received from it (5 round trips required; duplicated replies do not count)"));
+                                }
                             }
                             // timing (C07)
                             let lrx = p.mon.last_rx.get(&a).copied();
